@@ -374,7 +374,7 @@ def main(ck):
         if 1 in cls:
             ck.broken.append("correspondence:C19.member")
         if 2 in cls:
-            ck.violation("member=%s" % c["member"], {"case": c, "impl_out": o["out"], "clause": "%s_refuted" % c["member"].replace("-", "_")})
+            ck.violation("member=%s:%s" % (c["member"], c["val"][0]), {"case": c, "impl_out": o["out"], "clause": "%s_refuted" % c["member"].replace("-", "_")})
         elif 1 in cls:
             ck.violation("tie:member=%s" % c["member"], {"case": c, "impl_out": o["out"], "clause": "model vs implementation (tie)"})
 
